@@ -764,21 +764,25 @@ func sessionAfterAttrs(in Input) bool {
 	return false
 }
 
-// sig: the known-finding signature of an input (computed from the input alone).
-// update-all-nothing-where: Create from map values that name no column UpdateAll could set (only the key and/or
-// created_at) under OnConflict{UpdateAll: true, Where: ...}: the rule degenerates to DO NOTHING but keeps its WHERE.
-func sig(in Input) string {
+// sig: no known finding is open for C16.
+func sig(in Input) string { return "" }
+
+// allNothingWhere: the shape of the fixed finding update-all-nothing-where (/repo commit b84cf7b): Create from map
+// values that name no column UpdateAll could set (only the key and/or created_at) under
+// OnConflict{UpdateAll: true, Where: ...} — the rule degenerates to DO NOTHING, which takes no condition.
+// Generated on purpose (stream update-all-nothing-where).
+func allNothingWhere(in Input) bool {
 	if in.Fin.Kind == "create_maps" && in.Fin.Rule == "all" && in.Fin.OCWhere != nil {
 		for _, kv := range in.Fin.Maps {
 			for _, p := range kv {
 				if p.Col != "id" && p.Col != "created_at" {
-					return ""
+					return false
 				}
 			}
 		}
-		return "update-all-nothing-where"
+		return true
 	}
-	return ""
+	return false
 }
 
 // ---- generation ------------------------------------------------------------------------------
@@ -1175,6 +1179,25 @@ func genStep(r *lib.Rng, state []Rec, now int64, edge, known bool) Input {
 				}
 				lib.Shuffle(r, kv)
 				f.Maps = append(f.Maps, kv)
+			}
+			if f.Rule == "all" && r.Chance(1, 6) {
+				// the fixed finding's shape: UpdateAll + Where over maps naming only key / created_at
+				if f.OCWhere == nil {
+					k := int64(1 + r.Intn(3))
+					f.OCWhere = &k
+				}
+				for i, kv := range f.Maps {
+					var keep []KV
+					for _, p := range kv {
+						if p.Col == "id" || p.Col == "created_at" {
+							keep = append(keep, p)
+						}
+					}
+					if len(keep) == 0 {
+						keep = []KV{{"created_at", vI(int64(1 + r.Intn(5)))}}
+					}
+					f.Maps[i] = keep
+				}
 			}
 			f.Kind, f.Val = "create_maps", nil
 		}
@@ -1737,6 +1760,9 @@ func main() {
 			if sessionAfterAttrs(in) {
 				kind = "session-after-attrs"
 			}
+			if allNothingWhere(in) {
+				kind = "update-all-nothing-where"
+			}
 			o := add(kind, in)
 			n++
 			if o.Setup == "" {
@@ -1749,6 +1775,6 @@ func main() {
 			}
 		}
 	}
-	out.Extra["rule"] = "a case is ONE step on a table of 0..n rows over keys 1..4 (+ rowid-assigned keys): Save(v) | Omit(subset of name,age,email,updated_at in column or field spelling).Save(v) on stored, soft-deleted, missing and zero keys with zero-valued fields | Create+OnConflict rule on a slice (Create(&slice) or CreateInBatches) | Save(&ptr) | Save(&slice of 2-4 values mixing stored keys, fresh keys and zero keys in any order; the slice handed back is compared element by element and is saved again by a later step; RETURNING dialect) | Create+OnConflict{DoNothing, DoUpdates(subset of name,age,email,updated_at,deleted_at), UpdateAll}(v), optionally conditional (OnConflict.Where = stored age < k on DoUpdates/UpdateAll, OnConflict.TargetWhere = age < k; colliding rows on both sides of the condition) | the same rules, with and without explicit Columns=[id], on a stand-alone table with a second (partial) UNIQUE index on e-mails starting with 'u' and incoming rows whose e-mail is free, their own or held by another (live or soft-deleted) row | histories (1 in 8) of Save / Save(&slice) / Create+OnConflict (DoNothing, DoUpdates, UpdateAll with the explicit (id, region) target or the DEFAULT one) / FirstOrCreate on a second model type with a COMPOSITE primary key (id, region) over {1,2} x {eu,us}: collisions on the full key and on one member only | the same rules on MAP values, Model(&Acct{}).Clauses(rule).Create(map | *map | []map (no-RETURNING dialect) | *[]map of 1-3 maps), every map naming its own subset of id/name/age/email/updated_at/created_at/deleted_at in column or field spelling, keys stored / soft-deleted / fresh / absent | FirstOrInit | FirstOrCreate, preceded by a chain of Unscoped() (1 chain in 4, at any position, conditions then aimed at a soft-deleted row 3 times in 4) / Where(struct|map|raw 'age > ?') / Attrs / Assign (struct by value or by pointer, map in column or field spelling, key-value; 1-2 arguments) in any order with Session / WithContext inserted at chain positions (Session with every result-neutral option: none, SkipDefaultTransaction, QueryFields, CreateBatchSize, Logger, NowFunc, DisableNestedTransaction, FullSaveAssociations, PropagateUnscoped; statement-cloning forms WithContext, Session{Context}, Session{PrepareStmt}); the last chain condition may come through Scopes(...); steps are chained into histories of 6..12 steps on the evolving table with soft/hard deletions in between; v is fresh (key 0 or 1..4) or a previously stored row edited. Session/WithContext are inserted at EVERY chain position, also after Attrs/Assign (stream session-after-attrs forces that shape, the fixed finding clone-drops-attrs). Known finding update-all-nothing-where: maps naming only key/created_at under UpdateAll+Where (DO NOTHING WHERE). Domain: at most one Attrs and one Assign per chain, key-value form alone, two-argument forms in column spelling, Attrs/Assign keys among name/age/email, type-correct values, one inline condition. distinct = distinct (finisher, rule+cols, collision kind, chain form, inline form, RowsAffected, writes, error, table size); non-trivial = the value's key collides with a stored row (Save/upsert; a map's key is stored) or the chain has a condition and a non-empty Attrs/Assign on a non-empty table (FirstOr*)."
+	out.Extra["rule"] = "a case is ONE step on a table of 0..n rows over keys 1..4 (+ rowid-assigned keys): Save(v) | Omit(subset of name,age,email,updated_at in column or field spelling).Save(v) on stored, soft-deleted, missing and zero keys with zero-valued fields | Create+OnConflict rule on a slice (Create(&slice) or CreateInBatches) | Save(&ptr) | Save(&slice of 2-4 values mixing stored keys, fresh keys and zero keys in any order; the slice handed back is compared element by element and is saved again by a later step; RETURNING dialect) | Create+OnConflict{DoNothing, DoUpdates(subset of name,age,email,updated_at,deleted_at), UpdateAll}(v), optionally conditional (OnConflict.Where = stored age < k on DoUpdates/UpdateAll, OnConflict.TargetWhere = age < k; colliding rows on both sides of the condition) | the same rules, with and without explicit Columns=[id], on a stand-alone table with a second (partial) UNIQUE index on e-mails starting with 'u' and incoming rows whose e-mail is free, their own or held by another (live or soft-deleted) row | histories (1 in 8) of Save / Save(&slice) / Create+OnConflict (DoNothing, DoUpdates, UpdateAll with the explicit (id, region) target or the DEFAULT one) / FirstOrCreate on a second model type with a COMPOSITE primary key (id, region) over {1,2} x {eu,us}: collisions on the full key and on one member only | the same rules on MAP values, Model(&Acct{}).Clauses(rule).Create(map | *map | []map (no-RETURNING dialect) | *[]map of 1-3 maps), every map naming its own subset of id/name/age/email/updated_at/created_at/deleted_at in column or field spelling, keys stored / soft-deleted / fresh / absent | FirstOrInit | FirstOrCreate, preceded by a chain of Unscoped() (1 chain in 4, at any position, conditions then aimed at a soft-deleted row 3 times in 4) / Where(struct|map|raw 'age > ?') / Attrs / Assign (struct by value or by pointer, map in column or field spelling, key-value; 1-2 arguments) in any order with Session / WithContext inserted at chain positions (Session with every result-neutral option: none, SkipDefaultTransaction, QueryFields, CreateBatchSize, Logger, NowFunc, DisableNestedTransaction, FullSaveAssociations, PropagateUnscoped; statement-cloning forms WithContext, Session{Context}, Session{PrepareStmt}); the last chain condition may come through Scopes(...); steps are chained into histories of 6..12 steps on the evolving table with soft/hard deletions in between; v is fresh (key 0 or 1..4) or a previously stored row edited. Session/WithContext are inserted at EVERY chain position, also after Attrs/Assign (stream session-after-attrs forces that shape, the fixed finding clone-drops-attrs). Stream update-all-nothing-where forces the shape of the fixed finding (maps naming only key/created_at under UpdateAll+Where: DO NOTHING takes no condition, /repo b84cf7b). Domain: at most one Attrs and one Assign per chain, key-value form alone, two-argument forms in column spelling, Attrs/Assign keys among name/age/email, type-correct values, one inline condition. distinct = distinct (finisher, rule+cols, collision kind, chain form, inline form, RowsAffected, writes, error, table size); non-trivial = the value's key collides with a stored row (Save/upsert; a map's key is stored) or the chain has a condition and a non-empty Attrs/Assign on a non-empty table (FirstOr*)."
 	lib.Must(out.Flush())
 }
